@@ -39,7 +39,9 @@ EmptyIterKinds == {"nil_slice", "empty_slice", "nil_map", "empty_map", "empty_ar
 AT(xs, go) == [t |-> "arr", xs |-> xs, go |-> go]
 
 \* a Go struct value with the given fields (the harness has one struct type with these field names)
-Rec(f) == [t |-> "rec", f |-> f]
+Rec(f) == [t |-> "rec", f |-> f, m |-> [x \in {} |-> Nil]]
+\* ... with methods: m maps a method name to the value a call returns
+RecM(f, m) == [t |-> "rec", f |-> f, m |-> m]
 \* trusted HTML supplied through the HTMLer interface instead of template.HTML
 HTMLer(s) == [t |-> "html", s |-> s, go |-> "htmler"]
 
